@@ -57,6 +57,10 @@ const (
 type params struct {
 	Mainnet bool
 	Rollup  uint32
+	// Mixed: one flow (one running aggsender) converts claims of SEVERAL rows that agree in their low bits: for every leaf
+	// index the claims (rollup=Rollup), (mainnet), (rollup=0) and (rollup=Rollup+1) with that same leaf index, in one
+	// certificate and across consecutive certificates of the same flow objects
+	Mixed bool
 }
 
 func cubeN(tier string) uint32 {
@@ -70,8 +74,11 @@ func units(tier string) []mc.Unit {
 	var us []mc.Unit
 	for _, r := range indexSet(cubeN(tier)) {
 		for _, m := range []bool{false, true} {
-			us = append(us, mc.Unit{Name: fmt.Sprintf("mainnet=%v,rollup=%d", m, r), Params: params{m, r}})
+			us = append(us, mc.Unit{Name: fmt.Sprintf("mainnet=%v,rollup=%d", m, r), Params: params{Mainnet: m, Rollup: r}})
 		}
+	}
+	for _, r := range boundary32() {
+		us = append(us, mc.Unit{Name: fmt.Sprintf("mixed-rows,rollup=%d", r), Params: params{Rollup: r, Mixed: true}})
 	}
 	return us
 }
@@ -95,6 +102,10 @@ func guard(c *mc.Ctx, stage, what string, f func()) {
 
 func run(c *mc.Ctx, u mc.Unit) {
 	p := u.Params.(params)
+	if p.Mixed {
+		runMixed(c, p)
+		return
+	}
 	leaves := indexSet(cubeN(c.Tier))
 	digest := sha256.New()
 
@@ -147,17 +158,59 @@ func run(c *mc.Ctx, u mc.Unit) {
 	}
 
 	// ---- Part 2: carriers -------------------------------------------------------------------
-	n := carriers(c, p, leaves)
+	var ts []triple
+	for _, leaf := range leaves {
+		ts = append(ts, triple{p.Mainnet, p.Rollup, leaf})
+	}
+	n := carriers(c, fmt.Sprintf("row %+v", p), ts)
 	c.AddEvals(n)
 	c.Witness("rows_followed_through_all_carriers")
 	c.Obs("row %+v leaves=%d encoded=%x carrier_checks=%d", p, len(leaves), digest.Sum(nil), n)
+}
+
+// runMixed: rows that share their low bits, through the same flow objects.
+func runMixed(c *mc.Ctx, p params) {
+	leaves := append(indexSet(12), 1<<32-3)
+	var ts []triple
+	rows := []triple{{false, p.Rollup, 0}, {true, 0, 0}, {false, 0, 0}, {false, p.Rollup + 1, 0}} // Rollup+1 wraps to 0 at the top: a duplicate row
+	if c.Bool("rows-in-reverse-order") {
+		for i, j := 0, len(rows)-1; i < j; i, j = i+1, j-1 {
+			rows[i], rows[j] = rows[j], rows[i]
+		}
+	}
+	perLeaf := c.Bool("the-rows-of-one-leaf-index-are-claimed-together")
+	seen := map[triple]bool{}
+	add := func(t triple) {
+		if !seen[t] { // a global index is claimed once
+			seen[t] = true
+			ts = append(ts, t)
+		}
+	}
+	if perLeaf {
+		for _, leaf := range leaves {
+			for _, r := range rows {
+				add(triple{r.M, r.R, leaf})
+			}
+		}
+	} else {
+		for _, r := range rows {
+			for _, leaf := range leaves {
+				add(triple{r.M, r.R, leaf})
+			}
+		}
+	}
+	n := carriers(c, fmt.Sprintf("mixed rows around rollup %d", p.Rollup), ts)
+	c.AddEvals(n)
+	c.NonTrivial()
+	c.Witness("claims_of_rows_sharing_low_bits_through_one_flow")
+	c.Obs("mixed rows rollup=%d claims=%d carrier_checks=%d", p.Rollup, len(ts), n)
 }
 
 var dbSeq int
 
 // carriers stores the row's claims, reads them back and follows them through every carrier.
 // It returns the number of (value, carrier) checks made.
-func carriers(c *mc.Ctx, p params, leaves []uint32) (checks int) {
+func carriers(c *mc.Ctx, label string, all []triple) (checks int) {
 	ctx := context.Background()
 	log := kit.Logger()
 	dbSeq++
@@ -180,15 +233,15 @@ func carriers(c *mc.Ctx, p params, leaves []uint32) (checks int) {
 		want  []*big.Int
 	}
 	var chunks []chunk
-	for i := 0; i < len(leaves); i += chunkSize {
-		j := min(i+chunkSize, len(leaves))
+	for i := 0; i < len(all); i += chunkSize {
+		j := min(i+chunkSize, len(all))
 		ch := chunk{block: firstBlock + uint64(len(chunks))}
 		var events []any
-		for k, leaf := range leaves[i:j] {
-			v := refCompose(p.Mainnet, p.Rollup, leaf)
-			ch.ts = append(ch.ts, triple{p.Mainnet, p.Rollup, leaf})
+		for k, t := range all[i:j] {
+			v := refCompose(t.M, t.R, t.L)
+			ch.ts = append(ch.ts, t)
 			ch.want = append(ch.want, v)
-			cl := claimFor(new(big.Int).Set(v), ch.block, uint64(k), p.Mainnet)
+			cl := claimFor(new(big.Int).Set(v), ch.block, uint64(k), t.M)
 			events = append(events, bridgesync.Event{Claim: &cl})
 		}
 		var bh common.Hash
@@ -213,7 +266,7 @@ func carriers(c *mc.Ctx, p params, leaves []uint32) (checks int) {
 	agglayer := agglayergrpc.NewVerifAgglayerGRPCClient(grpcCfg, nil, nil, submission)
 
 	for _, ch := range chunks {
-		where := fmt.Sprintf("row %+v block %d", p, ch.block)
+		where := fmt.Sprintf("%s block %d", label, ch.block)
 		at := func(i int) string {
 			return fmt.Sprintf("claim with on-chain global index %v = 0x%x %v", ch.want[i], ch.want[i], ch.ts[i])
 		}
